@@ -84,3 +84,51 @@ static inline v8u32 llvm_x86_avx_cvtt_ps2dq_256(v8f32 a) { v8u32 r; for (int i =
 #ifdef NEED_llvm_x86_avx_cvt_ps2dq_256
 static inline v8u32 llvm_x86_avx_cvt_ps2dq_256(v8f32 a) { v8u32 r; for (int i = 0; i < 8; ++i) r.e[i] = LL_CVTR32_f32(a.e[i]); return r; }
 #endif
+/* MOVMSK family: bit i = most significant bit of lane i */
+#define MODEL_MOVMSK_I(name, VT, N) static inline u32 name(VT a) { u32 r = 0; for (int i = 0; i < N; ++i) r |= (u32)((a.e[i] >> 7) & 1) << i; return r; }
+#define MODEL_MOVMSK_F(name, VT, N, W) static inline u32 name(VT a) { u32 r = 0; for (int i = 0; i < N; ++i) r |= (u32)((F2U##W(a.e[i]) >> (W - 1)) & 1) << i; return r; }
+#ifdef NEED_llvm_x86_sse2_pmovmskb_128
+MODEL_MOVMSK_I(llvm_x86_sse2_pmovmskb_128, v16u8, 16)
+#endif
+#ifdef NEED_llvm_x86_avx2_pmovmskb
+MODEL_MOVMSK_I(llvm_x86_avx2_pmovmskb, v32u8, 32)
+#endif
+#ifdef NEED_llvm_x86_sse_movmsk_ps
+MODEL_MOVMSK_F(llvm_x86_sse_movmsk_ps, v4f32, 4, 32)
+#endif
+#ifdef NEED_llvm_x86_sse2_movmsk_pd
+MODEL_MOVMSK_F(llvm_x86_sse2_movmsk_pd, v2f64, 2, 64)
+#endif
+#ifdef NEED_llvm_x86_avx_movmsk_ps_256
+MODEL_MOVMSK_F(llvm_x86_avx_movmsk_ps_256, v8f32, 8, 32)
+#endif
+#ifdef NEED_llvm_x86_avx_movmsk_pd_256
+MODEL_MOVMSK_F(llvm_x86_avx_movmsk_pd_256, v4f64, 4, 64)
+#endif
+/* PTEST / VTESTPS family */
+#ifdef NEED_llvm_x86_sse41_ptestz
+static inline u32 llvm_x86_sse41_ptestz(v2u64 a, v2u64 b) { return ((a.e[0] & b.e[0]) | (a.e[1] & b.e[1])) == 0; }
+#endif
+#ifdef NEED_llvm_x86_sse41_ptestc
+static inline u32 llvm_x86_sse41_ptestc(v2u64 a, v2u64 b) { return ((~a.e[0] & b.e[0]) | (~a.e[1] & b.e[1])) == 0; }
+#endif
+#ifdef NEED_llvm_x86_avx_ptestz_256
+static inline u32 llvm_x86_avx_ptestz_256(v4u64 a, v4u64 b) { u64 r = 0; for (int i = 0; i < 4; ++i) r |= a.e[i] & b.e[i]; return r == 0; }
+#endif
+#ifdef NEED_llvm_x86_avx_ptestc_256
+static inline u32 llvm_x86_avx_ptestc_256(v4u64 a, v4u64 b) { u64 r = 0; for (int i = 0; i < 4; ++i) r |= ~a.e[i] & b.e[i]; return r == 0; }
+#endif
+/* VTESTPS/VTESTPD: ZF = all sign bits of (a & b) clear; CF = all sign bits of (~a & b) clear */
+#define MODEL_VTEST(name, VT, N, W, NEGA) static inline u32 name(VT a, VT b) { u32 r = 1; for (int i = 0; i < N; ++i) if (((NEGA F2U##W(a.e[i])) & F2U##W(b.e[i])) >> (W - 1)) r = 0; return r; }
+#ifdef NEED_llvm_x86_avx_vtestz_ps_256
+MODEL_VTEST(llvm_x86_avx_vtestz_ps_256, v8f32, 8, 32, )
+#endif
+#ifdef NEED_llvm_x86_avx_vtestc_ps_256
+MODEL_VTEST(llvm_x86_avx_vtestc_ps_256, v8f32, 8, 32, ~)
+#endif
+#ifdef NEED_llvm_x86_avx_vtestz_pd_256
+MODEL_VTEST(llvm_x86_avx_vtestz_pd_256, v4f64, 4, 64, )
+#endif
+#ifdef NEED_llvm_x86_avx_vtestc_pd_256
+MODEL_VTEST(llvm_x86_avx_vtestc_pd_256, v4f64, 4, 64, ~)
+#endif
